@@ -140,7 +140,7 @@ def exceptAll (spec : List Opt) (f : Opt → Except Err Val) : Option (List (Str
                    {"winner": layer name, "value": {"ok":VAL}|{"err":kind}, "merged": {"ok":VAL}|{"err":kind}|null}
                    ("merged": str2typeCfg of the key looked up in `sixLayers`, what overwrite_defaults converts)
    * "plugpick" -> `cat`: reporter|backend|loader, `where`: cmdline|config|dodo, `core`: [name],
-                   `layers`: [[[name,location]]] (extra_config, pyproject.toml, doit.cfg), `name`:
+                   `layers`: [[[name,location]]] (extra_config, pyproject.toml, doit.cfg), `name`, optional `mods`:
                    {"pick": cls|error|traceback3|escapes, "cls": ["core",n]|["plugin",loc]|null, "accepts": bool,
                     "section": [[name,loc]]}
    * "cfgtext"  -> `opt`, `text`: {"cfg": RES, "cmd": RES, "env": RES}   RES = {"ok":VAL}|{"err":kind} -/
@@ -184,7 +184,11 @@ def handleCfg (j : Json) : Option Json :=
         | _ => ([], [])
     let sect := addPlugins (pluginSection layers) []
     let name := s2l (jstr j "name")
-    let pk := pick cat w (nameTable core sect) name
+    -- "mods": [[module,[attr]]] the importable modules: loading is part of the answer (`pickLoaded`)
+    let mods : List (Str × List Str) := (jarr j "mods").map fun m => match asArr m with
+      | [k, v] => (s2l (asStr k), (asArr v).map fun a => s2l (asStr a))
+      | _ => ([], [])
+    let pk := if jhas j "mods" then pickLoaded cat w core sect mods name else pick cat w (nameTable core sect) name
     some <| Json.mkObj [
       ("pick", Json.str (match pk with | .cls _ => "cls" | .errorMsg => "error" | .traceback3 => "traceback3" | .escapes => "escapes")),
       ("cls", match pk with
@@ -192,6 +196,7 @@ def handleCfg (j : Json) : Option Json :=
               | .cls (.plugin l) => mkArr [Json.str "plugin", Json.str (l2s l)]
               | _ => Json.null),
       ("accepts", Json.bool (acceptsName core sect name)),
+      ("all_load", Json.bool (allLoad mods sect)),
       ("section", mkArr (sect.map fun kv => mkArr [Json.str (l2s kv.1), Json.str (l2s kv.2)]))]
   | "cfgtext" =>
     some <| match optOf (jobj j "opt") with
